@@ -11,6 +11,9 @@ und=$(echo "$out" | grep -c "^UNDECIDED")
 first=$(echo "$out" | grep "^VIOLATION" | grep -v "crosscheck.native" | head -1 | sed 's/.*replays.C[0-9]*.//; s/.json.*//' | cut -c1-120)
 [ -z "$first" ] && first=$(echo "$out" | grep "^VIOLATION" | head -1 | sed 's/.*replays.C[0-9]*.//; s/.json.*//' | cut -c1-120)
 caught=no; [ $((ded+nat)) -gt 0 ] && caught=yes
+(
+flock 9
 grep -v "^$(basename $d)	" seeded/RESULTS.tsv > seeded/RESULTS.tsv.tmp; mv seeded/RESULTS.tsv.tmp seeded/RESULTS.tsv
 printf "%s\t%s\t%s\t%s\t%s\t%s\t%s\n" "$(basename $d)" "$ded" "$nat" "$noin" "$und" "$caught" "$first" >> seeded/RESULTS.tsv
+) 9>/verif/seeded/.results.lock
 echo "$(basename $d) $ded $nat $caught"
